@@ -236,6 +236,15 @@ def gen_model(rng, foreign=True):
         m.traits[tn] = Trait(tn, methods)
         # real (non-zero-sized) temporary-return storage, as for traits returning borrowed wrapped objects
         m.traits[tn].rettmp_sized = rng.random() < 0.25
+    # the clashing method sometimes has the very same signature in both traits and sits at
+    # different vtable positions (a wrapper chosen by name + signature alone would hit the wrong slot)
+    if shared_method and len(names) >= 2 and rng.random() < 0.5:
+        import copy as _copy
+        first = m.traits[names[0]].methods[0]
+        t2 = m.traits[names[1]]
+        if first.name == "common" and t2.methods and t2.methods[0].name == "common":
+            twin = _copy.deepcopy(first)
+            t2.methods = t2.methods[1:] + [twin]
     # objects
     for tn in names:
         for _ in range(rng.randint(1, 2)):
